@@ -1,6 +1,7 @@
 package props
 
 import (
+	"reflect"
 	"encoding/json"
 	"regexp"
 	"errors"
@@ -109,6 +110,24 @@ func srcNode(kind string, kids []*gen.SNode, body []*gen.DNode) (node.Node, erro
 	return nil, fmt.Errorf("unknown source %s", kind)
 }
 
+// the Go types a struct-backed target is given: nodeutil.Reflect converts numbers (int64 fields and []int64 for
+// int32 leaves and leaf-lists take its conversion paths) and keeps lists as slices of struct values;
+// nodeutil.Node wants the exact Go type (int) and takes slices of values or of pointers; half of the structs reach
+// some members through an embedded struct
+func c03structOpts(tgtKind string, r *core.Rng) gen.StructOpts {
+	o := gen.StructOpts{IntType: reflect.TypeOf(int(0)), LLInt: reflect.TypeOf(int32(0)), Embed: r.Chance(50)}
+	switch tgtKind {
+	case "reflect-struct":
+		o.IntType, o.LLInt = reflect.TypeOf(int64(0)), reflect.TypeOf(int64(0))
+	case "reflect-struct-ptr":
+		o.IntType, o.LLInt = reflect.TypeOf(int64(0)), reflect.TypeOf(int64(0))
+		o.ListPtr = true
+	case "node-struct-ptr":
+		o.ListPtr = true // nodeutil.Node creates list entries only through pointers; it wants int for int32 and []int32 for its leaf-list
+	}
+	return o
+}
+
 func applyEdit(sel *node.Selection, strategy string, src node.Node) (err error) {
 	defer func() {
 		if r := recover(); r != nil {
@@ -138,7 +157,7 @@ func C03(c *core.Ctx) {
 	rng := core.NewRng(c.Seed)
 	nSchemas := c.N(40, 600)
 	perSchema := c.N(60, 300)
-	o := gen.Opts{MaxDepth: 3, MaxKids: 4, Defaults: true, MultiKeys: true}
+	o := gen.Opts{MaxDepth: 3, MaxKids: 4, Defaults: true, MultiKeys: true, LeafLists: true, NoZero: true}
 	type pend struct {
 		desc   string
 		impl   string // "ok <canon>" or "err <class>"
@@ -164,7 +183,7 @@ func C03(c *core.Ctx) {
 			}
 			strategy := core.Pick(r, []string{"upsert", "upsert", "insert", "update"})
 			srcKind := core.Pick(r, []string{"refstore", "refstore", "json", "reflect-map", "node-map"})
-			tgtKind := core.Pick(r, []string{"refstore", "refstore", "refstore", "reflect-map", "node-map"})
+			tgtKind := core.Pick(r, []string{"refstore", "refstore", "refstore", "reflect-map", "node-map", "reflect-struct", "reflect-struct-ptr", "node-struct-ptr"})
 			// entry point
 			locs := []editLoc{{"", dc.kids, tgt, "root", 0}}
 			findLocs(dc.kids, tgt, "", 0, &locs)
@@ -190,7 +209,16 @@ func C03(c *core.Ctx) {
 			// target store
 			var root node.Node
 			var tgtMap map[string]interface{}
+			var tgtStruct reflect.Value
 			switch tgtKind {
+			case "reflect-struct", "reflect-struct-ptr", "node-struct-ptr":
+				so := c03structOpts(tgtKind, r)
+				tgtStruct = gen.ToStruct(dc.kids, tgt, gen.StructType(dc.kids, 0, so), so)
+				if strings.HasPrefix(tgtKind, "reflect-") {
+					root = nodeutil.ReflectChild(tgtStruct.Interface())
+				} else {
+					root = &nodeutil.Node{Object: tgtStruct.Interface()}
+				}
 			case "refstore":
 				root = refstore.NewBody(nil, dc.kids, tgt, "")
 			case "reflect-map":
@@ -240,6 +268,8 @@ func C03(c *core.Ctx) {
 			gen.CompoundInMap = 0
 			if tgtKind == "refstore" {
 				after = tgt
+			} else if tgtStruct.IsValid() {
+				after = gen.FromStruct(dc.kids, tgtStruct, 0)
 			} else {
 				after = gen.FromMap(dc.kids, tgtMap, &unord)
 			}
